@@ -1004,6 +1004,11 @@ ImplOf(ev, pre) ==
          [] ev.op = "phase_global" -> <<TRUE, IPhaseGlobal(x)>>
          [] ev.op = "phase_sector" -> <<TRUE, IPhaseSector(x, a.sector)>>
          [] ev.op = "phase_sync" -> <<TRUE, IPhaseSync(x)>>
+         [] ev.op = "fuse" ->
+              LET g == Groups1(a.groups) IN
+              IF FuseEnabled(x, g) /\ x.blocks # <<>> THEN <<TRUE, IFFuse(x, g)>> ELSE none
+         [] ev.op = "unfuse" ->
+              LET ax == NormAx(a.axis, n) IN IF IsFused(x.ix[ax]) THEN <<TRUE, IFUnfuse(x, ax)>> ELSE none
          [] ev.op = "tensordot" ->
               LET b == Ins(ev, pre, 2)
                   ax == TdAxes(a, n, Rank(b))
@@ -1056,6 +1061,12 @@ EventFails(ev, pre) ==
 EventDrift(ev, pre) ==
   IF ev.op \in {"group_pairs", "group_assoc", "sectors"} THEN TableDrift(ev)
   ELSE IF ev.op = "threads_run" THEN ThreadsDrift(ev)
+  ELSE IF ev.op = "init" /\ Has(ev.args, "descs")
+  THEN \* programs exported from Machine.tla: the real inputs must be the arrays the model started from
+       UNION { LET d == ev.args.descs[r]
+                   dd == [ix |-> d.ix, charge |-> d.charge, drop |-> SeqRange(d.drop), start |-> d.start,
+                          phases |-> SeqRange(d.phases), oddpos |-> d.oddpos]
+               IN F(L2Eq(BuildArray(d.sym, d.kind, dd), ev.regs[r]), "L2.init." \o r) : r \in DOMAIN ev.args.descs }
   ELSE IF ev.op \in {"rel", "init", "observe", "op_apply", "make_state"} THEN {}
   ELSE ImplDrift(ev, pre)
 
